@@ -212,8 +212,13 @@ fn main() {
                 let l2 = rng.below(cx.trees[t2].0.height() as u64) as usize;
                 let r = match rng.below(3) { 0 => Ref::Z(rng.below(4) as usize), 1 => Ref::Q(t2, i2, l2), _ => Ref::R(t2) };
                 cx.set(p, j, &r, &mut rng);
-                cx.check(false, d, i as u64, &Ref::R(t), p, Some(false), "corrupt-element-rejected", &mut rng);
-                cx.check(true, d, i as u64, &Ref::R(t), p, Some(false), "corrupt-element-rejected", &mut rng);
+                // the replacement may be the very same hash (two trees share their empty-subtree roots): then the
+                // proof is unchanged and must of course still verify — only the model comparison applies
+                let changed = cx.proofs[p] != cx.proofs[p0];
+                if !changed { cx.rec.count("corruption:replacement-identical"); }
+                let exp = if changed { Some(false) } else { None };
+                cx.check(false, d, i as u64, &Ref::R(t), p, exp, "corrupt-element-rejected", &mut rng);
+                cx.check(true, d, i as u64, &Ref::R(t), p, exp, "corrupt-element-rejected", &mut rng);
             }
             // shortened / lengthened
             for newlen in [0usize, len.saturating_sub(1), len / 2] {
